@@ -104,24 +104,31 @@ func (this *partition) bytesSize() uint64 {
 func (this *partition) loadRaft(nodeIds []uint64) error {
 	this.raftMu.Lock()
 	defer this.raftMu.Unlock()
+	if this.raft != nil {
+		// Already loaded. The allocator (for a partition it was told to watch) and the
+		// goroutine that applies the catalogue (for a replica set this node was just
+		// added to) can both decide to load the group; a second group for the same
+		// partition cannot be registered and must not replace the running one.
+		return nil
+	}
 
-	var err error
-	this.raft, err = raft.NewRaftGroup(this.id, nodeIds, this.wal, this.raftTransport)
+	group, err := raft.NewRaftGroup(this.id, nodeIds, this.wal, this.raftTransport)
 	if err != nil {
 		return err
 	}
-	if err := this.raft.RegisterProcessFn(this.process); err != nil {
+	if err := group.RegisterProcessFn(this.process); err != nil {
 		return err
 	}
-	if err := this.raft.RegisterProcessSnapshotFn(this.processSnapshot); err != nil {
+	if err := group.RegisterProcessSnapshotFn(this.processSnapshot); err != nil {
 		return err
 	}
-	if err := this.raft.RegisterSnapshotFn(this.snapshot); err != nil {
+	if err := group.RegisterSnapshotFn(this.snapshot); err != nil {
 		return err
 	}
-	if err := this.raft.Start(); err != nil {
+	if err := group.Start(); err != nil {
 		return err
 	}
+	this.raft = group
 
 	this.log.Info("Loaded Raft")
 	return nil
